@@ -10,7 +10,11 @@ pub struct Hue {
 
 impl Hue {
     pub fn from(unclipped: Scalar) -> Hue {
-        Hue { unclipped }
+        // A hue that is NaN or infinite has no direction; treat it as 0 degrees so that
+        // every color stays a valid (finite) sRGB color.
+        Hue {
+            unclipped: if unclipped.is_finite() { unclipped } else { 0.0 },
+        }
     }
 
     /// Return a hue value in the interval [0, 360].
